@@ -8,34 +8,21 @@ the rectangle) in the exact 16-bit arithmetic of the uniform-source fast paths (
 32-bit products) and leaves draw.Over behind.  Named deviation ResetKeepsOp: the interface
 documents that Reset sets DrawOp to Over; the Reset a vec.Rasterizer has is the embedded one, which
 does not touch the field Draw copies from - the model says what the code does.
-GEN_VecRast (TLC): every call sequence up to depth 3 / 4 over {SetOp, Reset, Fill(6 colours)} on
+GEN_VecRast (TLC): every call sequence up to depth 3 / 4 over {SetOp, Reset, Fill(6 colours), FillEmpty} on
 three backgrounds: OneShot, OpOfFill, RingTells, OutKept, StaysPremul, OpaqueWins; each sequence is
 printed with the expected state after every step and replayed on a real vec.Rasterizer (directly
 and through a render.Renderer, rectangle at and away from the image origin).
 Not a listed property: a deviation is reported as EXTRA-DEVIATION, never as VIOLATION."""
 import json, os
-from lib import vlib, deccheck
+from lib import vlib, deccheck, vecrastcheck
 
 
 def run(ctx):
     quick = ctx.tier == "quick"
     ctx.build_harness()
-    gen = os.path.join(ctx.tmp, "GEN_VecRast.out")
-    g = ctx.tlc("GEN_VecRast", "GEN_VecRast" if quick else "GEN_VecRast_t", timeout=1800, out_file=gen)
-    if g["error"] or not g["finished"]:
-        raise vlib.Broken("GEN_VecRast failed (spec-level):\n%s" % vlib.tail(g["out"]))
-    ctx.mc.append({k: g[k] for k in ("module", "cfg", "generated", "distinct", "wall_s")})
-    mis = os.path.join(ctx.tmp, "vecrast.mis")
-    p, _ = ctx.run_harness(["replay-vecrast", "-in", gen, "-out", mis], timeout=3000)
-    s = deccheck.summary_of(p)
-    if s["cases"] < 2000 or s["steps"] < 10000:
-        raise vlib.Broken("too few generated sequences: %d (%d steps)" % (s["cases"], s["steps"]))
-    for line in open(mis):
-        m = json.loads(line)
-        ctx.violation("vecrast:%s:%s" % (m["route"], "|".join(m["seq"])),
-                      "vec.Rasterizer differs from VecRast.tla (%s): %s" % (m["route"], m["what"]), m)
-    cov = dict(states=g["distinct"], transitions=g["generated"], traces_validated_against_impl=s["cases"],
-               sequences=s["cases"], steps_compared=s["steps"], exhaustive=True)
+    v = vecrastcheck.run_vecrast(ctx, "GEN_VecRast" if quick else "GEN_VecRast_t")
+    cov = dict(states=v["states"], transitions=v["transitions"], traces_validated_against_impl=v["sequences"],
+               sequences=v["sequences"], steps_compared=v["steps_compared"], exhaustive=True)
     return vlib.finish(ctx, "model_checking", cov, [
         "sources are premultiplied colours (the fast paths' 32-bit products wrap otherwise); destination *image.RGBA",
         "coverage is all or nothing: anti-aliased edge pixels are not compared",
